@@ -94,11 +94,25 @@ Theorem scaled_radii_never_overlap W H R bt br bb bl :
   nonneg (rr o) /\ fits (rw o) (rh o) (rr o).
 Proof.
   intros Hw Hh o. unfold o, rounded_box. simpl rr. simpl rw. simpl rh.
-  set (r := inner_raw R bt br bb bl). set (w := W - bl - br) in *. set (h := H - bt - bb) in *.
-  pose proof (inner_raw_nonneg R bt br bb bl) as N. fold r in N.
+  set (r := inner_raw (scale (ratio W H R) R) bt br bb bl). set (w := W - bl - br) in *. set (h := H - bt - bb) in *.
+  pose proof (inner_raw_nonneg (scale (ratio W H R) R) bt br bb bl) as N. fold r in N.
   destruct N as [N1 [N2 [N3 [N4 [N5 [N6 [N7 N8]]]]]]].
   pose proof (ratio_nonneg w h r Hw Hh) as Hf.
   split.
+  - unfold nonneg, scale; simpl. repeat split; apply Qmult_le_0_compat; assumption.
+  - unfold fits, scale; simpl. repeat split; apply side_fits; auto; intros Hs; apply fold_min_in; unfold cands;
+      rewrite !in_app_iff.
+    + left. now apply cand_in.
+    + right; left. now apply cand_in.
+    + right; right; left. now apply cand_in.
+    + right; right; right. now apply cand_in.
+Qed.
+
+(* the used outer radii (5.5): the specified radii times the overlap factor of the border box never overlap *)
+Lemma css_outer_fits W H R : 0 <= W -> 0 <= H -> nonneg R -> nonneg (css_outer W H R) /\ fits W H (css_outer W H R).
+Proof.
+  intros Hw Hh [N1 [N2 [N3 [N4 [N5 [N6 [N7 N8]]]]]]]. pose proof (ratio_nonneg W H R Hw Hh) as Hf.
+  unfold css_outer. split.
   - unfold nonneg, scale; simpl. repeat split; apply Qmult_le_0_compat; assumption.
   - unfold fits, scale; simpl. repeat split; apply side_fits; auto; intros Hs; apply fold_min_in; unfold cands;
       rewrite !in_app_iff.
@@ -116,21 +130,24 @@ Proof.
   destruct Hx as [[Hs ->]|[[Hs ->]|[[Hs ->]|[Hs ->]]]]; apply Qle_shift_div_l; auto; lra.
 Qed.
 
-(* inner radius = outer radius minus the width of the adjacent side, floored at 0, per axis and per corner with
-   its own two sides: top-left (left, top), top-right (right, top), bottom-right (right, bottom),
-   bottom-left (left, bottom); reduced by one common factor in (0, 1], which is 1 when the curves fit *)
+(* the code follows the CSS rule by construction: outer radii scaled against the border box (5.5), inner radius =
+   used outer radius minus the width of the adjacent side, floored at 0 (5.3), per axis and per corner with its own
+   two sides: top-left (left, top), top-right (right, top), bottom-right (right, bottom), bottom-left (left,
+   bottom); then one common factor f <= 1 on the inner rectangle, which is 1 when these radii fit *)
 Theorem inner_radius_is_outer_minus_own_sides W H R bt br bb bl :
   let o := rounded_box W H R bt br bb bl in
-  let f := ratio (W - bl - br) (H - bt - bb) (inner_raw R bt br bb bl) in
+  let k := ratio W H R in
+  let f := ratio (W - bl - br) (H - bt - bb) (inner_raw (css_outer W H R) bt br bb bl) in
   dx o = bl /\ dy o = bt /\ rw o = W - bl - br /\ rh o = H - bt - bb /\
-  tlx (rr o) = Qmax 0 (tlx R - bl) * f /\ tly (rr o) = Qmax 0 (tly R - bt) * f /\
-  trx (rr o) = Qmax 0 (trx R - br) * f /\ try_ (rr o) = Qmax 0 (try_ R - bt) * f /\
-  brx (rr o) = Qmax 0 (brx R - br) * f /\ bry (rr o) = Qmax 0 (bry R - bb) * f /\
-  blx (rr o) = Qmax 0 (blx R - bl) * f /\ bly (rr o) = Qmax 0 (bly R - bb) * f /\
-  f <= 1 /\
-  (fits (W - bl - br) (H - bt - bb) (inner_raw R bt br bb bl) -> f == 1).
+  tlx (rr o) = Qmax 0 (tlx R * k - bl) * f /\ tly (rr o) = Qmax 0 (tly R * k - bt) * f /\
+  trx (rr o) = Qmax 0 (trx R * k - br) * f /\ try_ (rr o) = Qmax 0 (try_ R * k - bt) * f /\
+  brx (rr o) = Qmax 0 (brx R * k - br) * f /\ bry (rr o) = Qmax 0 (bry R * k - bb) * f /\
+  blx (rr o) = Qmax 0 (blx R * k - bl) * f /\ bly (rr o) = Qmax 0 (bly R * k - bb) * f /\
+  k <= 1 /\ f <= 1 /\ rr o = css_inner_fit W H R bt br bb bl /\
+  (fits (W - bl - br) (H - bt - bb) (inner_raw (css_outer W H R) bt br bb bl) -> f == 1).
 Proof.
-  intros o f. repeat split; try reflexivity.
+  intros o k f. repeat split; try reflexivity.
+  - apply ratio_le_1.
   - apply ratio_le_1.
   - intros F. apply ratio_one; [apply inner_raw_nonneg|exact F].
 Qed.
@@ -209,6 +226,72 @@ Proof.
   - apply (cand_sub_in _ _ h' (bry r + try_ r)); [exact Eh|simpl; ring|apply (in_cands_4 w h' (mirror_v r))].
 Qed.
 
+Lemma min_compat l l' : sub_cands l l' -> sub_cands l' l -> fold_left Qmin l 1 == fold_left Qmin l' 1.
+Proof.
+  intros S1 S2. apply fold_min_unique.
+  - apply fold_min_le.
+  - intros x Hx. destruct (S1 x Hx) as [y [Hy E]]. rewrite E. now apply fold_min_in.
+  - destruct (fold_min_attained l' 1) as [E|[x [Hx E]]]; [now left|right].
+    destruct (S2 x Hx) as [y [Hy E']]. exists y. split; [exact Hy|]. rewrite E. exact E'.
+Qed.
+
+Lemma cand_compat e s e' s' : e == e' -> s == s' -> sub_cands (cand e s) (cand e' s').
+Proof.
+  intros Ee Es x Hx. apply in_cand in Hx. destruct Hx as [Hs ->].
+  exists (e' / s'). split; [apply cand_in; lra|now rewrite Ee, Es].
+Qed.
+
+Lemma sub_cands_app2 l1 l2 l1' l2' : sub_cands l1 l1' -> sub_cands l2 l2' -> sub_cands (l1 ++ l2) (l1' ++ l2').
+Proof.
+  intros H1 H2 x Hx. apply in_app_or in Hx. destruct Hx as [Hx|Hx].
+  - destruct (H1 x Hx) as [y [Hy E]]. exists y. split; [apply in_or_app; now left|exact E].
+  - destruct (H2 x Hx) as [y [Hy E]]. exists y. split; [apply in_or_app; now right|exact E].
+Qed.
+
+Lemma overlap_ratio_compat w h t b l r w' h' t' b' l' r' :
+  w == w' -> h == h' -> t == t' -> b == b' -> l == l' -> r == r' ->
+  overlap_ratio w h t b l r == overlap_ratio w' h' t' b' l' r'.
+Proof.
+  intros. unfold overlap_ratio.
+  apply min_compat; repeat apply sub_cands_app2; apply cand_compat; assumption || (symmetry; assumption).
+Qed.
+
+Lemma ratio_is_overlap_ratio w h r :
+  ratio w h r = overlap_ratio w h (tlx r + trx r) (blx r + brx r) (tly r + bly r) (try_ r + bry r).
+Proof. reflexivity. Qed.
+
+(* the ratio, the clipping and the scaling respect == on radii *)
+Lemma radii_eq_sym r r' : radii_eq r r' -> radii_eq r' r.
+Proof. unfold radii_eq. intros [? [? [? [? [? [? [? ?]]]]]]]. repeat split; symmetry; assumption. Qed.
+
+Lemma ratio_radii_eq w h r w' h' r' : w == w' -> h == h' -> radii_eq r r' -> ratio w h r == ratio w' h' r'.
+Proof.
+  assert (S : forall w h r w' h' r', w == w' -> h == h' -> radii_eq r r' -> sub_cands (cands w h r) (cands w' h' r')).
+  { clear. intros w h r w' h' r' Ew Eh [e1 [e2 [e3 [e4 [e5 [e6 [e7 e8]]]]]]].
+    unfold cands at 1. repeat apply sub_cands_app.
+    - apply (cand_sub_in _ _ w' (tlx r' + trx r')); [exact Ew|now rewrite e1, e3|apply in_cands_1].
+    - apply (cand_sub_in _ _ w' (blx r' + brx r')); [exact Ew|now rewrite e7, e5|apply in_cands_2].
+    - apply (cand_sub_in _ _ h' (tly r' + bly r')); [exact Eh|now rewrite e2, e8|apply in_cands_3].
+    - apply (cand_sub_in _ _ h' (try_ r' + bry r')); [exact Eh|now rewrite e4, e6|apply in_cands_4]. }
+  intros Ew Eh Er. apply ratio_compat; [now apply S|].
+  apply S; [now symmetry|now symmetry|now apply radii_eq_sym].
+Qed.
+
+Lemma qmax0_compat a b : a == b -> qmax0 a == qmax0 b.
+Proof. intros E. unfold qmax0. now rewrite E. Qed.
+
+Lemma scale_compat f f' r r' : f == f' -> radii_eq r r' -> radii_eq (scale f r) (scale f' r').
+Proof.
+  intros Ef [e1 [e2 [e3 [e4 [e5 [e6 [e7 e8]]]]]]]. unfold radii_eq, scale; simpl.
+  repeat split; [rewrite e1|rewrite e2|rewrite e3|rewrite e4|rewrite e5|rewrite e6|rewrite e7|rewrite e8]; rewrite Ef; reflexivity.
+Qed.
+
+Lemma scale_one f r : f == 1 -> radii_eq (scale f r) r.
+Proof. intros E. unfold radii_eq, scale; simpl. rewrite E. repeat split; ring. Qed.
+
+Lemma radii_eq_refl r : radii_eq r r.
+Proof. unfold radii_eq. repeat split; reflexivity. Qed.
+
 (* mirroring the box left <-> right (radii and side widths) mirrors the result: the offset becomes the right
    width, sizes are unchanged, the radii are the mirrored radii.  A pair of swapped widths at one corner
    breaks exactly this. *)
@@ -218,10 +301,19 @@ Theorem rounded_box_mirror_h W H R bt br bb bl :
   dx o' = br /\ dy o' = dy o /\ rw o' == rw o /\ rh o' = rh o /\ radii_eq (rr o') (mirror_h (rr o)).
 Proof.
   intros o o'. unfold o, o', rounded_box. simpl dx. simpl dy. simpl rw. simpl rh. simpl rr.
-  assert (E : inner_raw (mirror_h R) bt bl bb br = mirror_h (inner_raw R bt br bb bl)) by reflexivity.
-  rewrite E.
-  assert (Er := ratio_mirror_h (W - bl - br) (W - br - bl) (H - bt - bb) (inner_raw R bt br bb bl) ltac:(ring)).
-  repeat split; try reflexivity; try ring; simpl; rewrite Er; reflexivity.
+  split; [reflexivity|]. split; [reflexivity|]. split; [ring|]. split; [reflexivity|].
+  assert (Ek := ratio_mirror_h W W H R ltac:(reflexivity)).
+  set (k := ratio W H R) in *. set (k' := ratio W H (mirror_h R)) in *.
+  set (r := inner_raw (scale k R) bt br bb bl).
+  assert (E : radii_eq (inner_raw (scale k' (mirror_h R)) bt bl bb br) (mirror_h r)).
+  { unfold radii_eq, r, inner_raw, scale, mirror_h; simpl. repeat split; apply qmax0_compat; rewrite Ek; reflexivity. }
+  assert (Er : ratio (W - br - bl) (H - bt - bb) (inner_raw (scale k' (mirror_h R)) bt bl bb br) ==
+               ratio (W - bl - br) (H - bt - bb) r).
+  { rewrite (ratio_radii_eq _ _ _ (W - bl - br) (H - bt - bb) (mirror_h r)); [|ring|reflexivity|exact E].
+    apply ratio_mirror_h. reflexivity. }
+  assert (F := scale_compat _ _ _ _ Er E).
+  destruct F as [f1 [f2 [f3 [f4 [f5 [f6 [f7 f8]]]]]]].
+  unfold radii_eq. repeat split; assumption.
 Qed.
 
 Theorem rounded_box_mirror_v W H R bt br bb bl :
@@ -230,10 +322,19 @@ Theorem rounded_box_mirror_v W H R bt br bb bl :
   dx o' = dx o /\ dy o' = bb /\ rw o' = rw o /\ rh o' == rh o /\ radii_eq (rr o') (mirror_v (rr o)).
 Proof.
   intros o o'. unfold o, o', rounded_box. simpl dx. simpl dy. simpl rw. simpl rh. simpl rr.
-  assert (E : inner_raw (mirror_v R) bb br bt bl = mirror_v (inner_raw R bt br bb bl)) by reflexivity.
-  rewrite E.
-  assert (Er := ratio_mirror_v (W - bl - br) (H - bt - bb) (H - bb - bt) (inner_raw R bt br bb bl) ltac:(ring)).
-  repeat split; try reflexivity; try ring; simpl; rewrite Er; reflexivity.
+  split; [reflexivity|]. split; [reflexivity|]. split; [reflexivity|]. split; [ring|].
+  assert (Ek := ratio_mirror_v W H H R ltac:(reflexivity)).
+  set (k := ratio W H R) in *. set (k' := ratio W H (mirror_v R)) in *.
+  set (r := inner_raw (scale k R) bt br bb bl).
+  assert (E : radii_eq (inner_raw (scale k' (mirror_v R)) bb br bt bl) (mirror_v r)).
+  { unfold radii_eq, r, inner_raw, scale, mirror_v; simpl. repeat split; apply qmax0_compat; rewrite Ek; reflexivity. }
+  assert (Er : ratio (W - bl - br) (H - bb - bt) (inner_raw (scale k' (mirror_v R)) bb br bt bl) ==
+               ratio (W - bl - br) (H - bt - bb) r).
+  { rewrite (ratio_radii_eq _ _ _ (W - bl - br) (H - bt - bb) (mirror_v r)); [|reflexivity|ring|exact E].
+    apply ratio_mirror_v. reflexivity. }
+  assert (F := scale_compat _ _ _ _ Er E).
+  destruct F as [f1 [f2 [f3 [f4 [f5 [f6 [f7 f8]]]]]]].
+  unfold radii_eq. repeat split; assumption.
 Qed.
 
 (* ------------------------------------------------------------------ the inner curve and the outer curve *)
@@ -287,54 +388,89 @@ Proof.
   apply (Qmult_le_l _ _ (p * q) Hpq). exact K.
 Qed.
 
-(* when nothing is scaled (the outer radii fit the border box and the clipped inner radii fit the inner box) the
-   inner curve of every corner lies inside the outer curve *)
+(* the inner curve follows the outer curve: whenever the inner radii taken from the USED outer radii fit the inner
+   rectangle (always the case when no radius is clipped at 0, see inner_fits_when_not_clipped), at every corner the
+   inner ellipse has the centre of the used outer one and radii not larger (so it is inside, concentric_inside),
+   or the corner is square with its vertex beyond the extent of the outer curve on one axis.  No condition on the
+   specified radii: overlapping ones are scaled first. *)
 Theorem inner_curve_inside_outer W H R bt br bb bl :
   0 <= bt -> 0 <= br -> 0 <= bb -> 0 <= bl ->
-  fits (W - bl - br) (H - bt - bb) (inner_raw R bt br bb bl) ->
+  let Ro := css_outer W H R in
+  fits (W - bl - br) (H - bt - bb) (inner_raw Ro bt br bb bl) ->
   let i := rr (rounded_box W H R bt br bb bl) in
-  radii_eq i (inner_raw R bt br bb bl) /\
-  (0 < tlx i -> 0 < tly i -> bl + tlx i == tlx R /\ bt + tly i == tly R /\ tlx i <= tlx R /\ tly i <= tly R) /\
-  (0 < trx i -> 0 < try_ i -> br + trx i == trx R /\ bt + try_ i == try_ R /\ trx i <= trx R /\ try_ i <= try_ R) /\
-  (0 < brx i -> 0 < bry i -> br + brx i == brx R /\ bb + bry i == bry R /\ brx i <= brx R /\ bry i <= bry R) /\
-  (0 < blx i -> 0 < bly i -> bl + blx i == blx R /\ bb + bly i == bly R /\ blx i <= blx R /\ bly i <= bly R) /\
-  (tlx i == 0 \/ tly i == 0 -> tlx R <= bl \/ tly R <= bt) /\
-  (trx i == 0 \/ try_ i == 0 -> trx R <= br \/ try_ R <= bt) /\
-  (brx i == 0 \/ bry i == 0 -> brx R <= br \/ bry R <= bb) /\
-  (blx i == 0 \/ bly i == 0 -> blx R <= bl \/ bly R <= bb).
+  radii_eq i (inner_raw Ro bt br bb bl) /\
+  (0 < tlx i -> 0 < tly i -> bl + tlx i == tlx Ro /\ bt + tly i == tly Ro /\ tlx i <= tlx Ro /\ tly i <= tly Ro) /\
+  (0 < trx i -> 0 < try_ i -> br + trx i == trx Ro /\ bt + try_ i == try_ Ro /\ trx i <= trx Ro /\ try_ i <= try_ Ro) /\
+  (0 < brx i -> 0 < bry i -> br + brx i == brx Ro /\ bb + bry i == bry Ro /\ brx i <= brx Ro /\ bry i <= bry Ro) /\
+  (0 < blx i -> 0 < bly i -> bl + blx i == blx Ro /\ bb + bly i == bly Ro /\ blx i <= blx Ro /\ bly i <= bly Ro) /\
+  (tlx i == 0 \/ tly i == 0 -> tlx Ro <= bl \/ tly Ro <= bt) /\
+  (trx i == 0 \/ try_ i == 0 -> trx Ro <= br \/ try_ Ro <= bt) /\
+  (brx i == 0 \/ bry i == 0 -> brx Ro <= br \/ bry Ro <= bb) /\
+  (blx i == 0 \/ bly i == 0 -> blx Ro <= bl \/ bly Ro <= bb).
 Proof.
-  intros Ht Hr Hb Hl F i.
-  assert (E1 : ratio (W - bl - br) (H - bt - bb) (inner_raw R bt br bb bl) == 1)
+  intros Ht Hr Hb Hl Ro F i.
+  assert (E1 : ratio (W - bl - br) (H - bt - bb) (inner_raw Ro bt br bb bl) == 1)
     by (apply ratio_one; [apply inner_raw_nonneg|exact F]).
-  assert (Ei : radii_eq i (inner_raw R bt br bb bl)).
-  { unfold i, rounded_box, radii_eq, scale; simpl. rewrite E1. repeat split; ring. }
+  assert (Ei : radii_eq i (inner_raw Ro bt br bb bl)).
+  { unfold i, rounded_box. cbn [rr]. change (scale (ratio W H R) R) with Ro. now apply scale_one. }
   split; [exact Ei|].
   destruct Ei as [e1 [e2 [e3 [e4 [e5 [e6 [e7 e8]]]]]]].
-  change (tlx (inner_raw R bt br bb bl)) with (qmax0 (tlx R - bl)) in e1.
-  change (tly (inner_raw R bt br bb bl)) with (qmax0 (tly R - bt)) in e2.
-  change (trx (inner_raw R bt br bb bl)) with (qmax0 (trx R - br)) in e3.
-  change (try_ (inner_raw R bt br bb bl)) with (qmax0 (try_ R - bt)) in e4.
-  change (brx (inner_raw R bt br bb bl)) with (qmax0 (brx R - br)) in e5.
-  change (bry (inner_raw R bt br bb bl)) with (qmax0 (bry R - bb)) in e6.
-  change (blx (inner_raw R bt br bb bl)) with (qmax0 (blx R - bl)) in e7.
-  change (bly (inner_raw R bt br bb bl)) with (qmax0 (bly R - bb)) in e8.
+  change (tlx (inner_raw Ro bt br bb bl)) with (qmax0 (tlx Ro - bl)) in e1.
+  change (tly (inner_raw Ro bt br bb bl)) with (qmax0 (tly Ro - bt)) in e2.
+  change (trx (inner_raw Ro bt br bb bl)) with (qmax0 (trx Ro - br)) in e3.
+  change (try_ (inner_raw Ro bt br bb bl)) with (qmax0 (try_ Ro - bt)) in e4.
+  change (brx (inner_raw Ro bt br bb bl)) with (qmax0 (brx Ro - br)) in e5.
+  change (bry (inner_raw Ro bt br bb bl)) with (qmax0 (bry Ro - bb)) in e6.
+  change (blx (inner_raw Ro bt br bb bl)) with (qmax0 (blx Ro - bl)) in e7.
+  change (bly (inner_raw Ro bt br bb bl)) with (qmax0 (bly Ro - bb)) in e8.
   clearbody i.
-  destruct (corner_concentric (tlx R) (tly R) bl bt Hl Ht) as [A1 B1].
-  destruct (corner_concentric (trx R) (try_ R) br bt Hr Ht) as [A2 B2].
-  destruct (corner_concentric (brx R) (bry R) br bb Hr Hb) as [A3 B3].
-  destruct (corner_concentric (blx R) (bly R) bl bb Hl Hb) as [A4 B4].
+  destruct (corner_concentric (tlx Ro) (tly Ro) bl bt Hl Ht) as [A1 B1].
+  destruct (corner_concentric (trx Ro) (try_ Ro) br bt Hr Ht) as [A2 B2].
+  destruct (corner_concentric (brx Ro) (bry Ro) br bb Hr Hb) as [A3 B3].
+  destruct (corner_concentric (blx Ro) (bly Ro) bl bb Hl Hb) as [A4 B4].
   cbv zeta in *.
   repeat split; intros; rewrite ?e1, ?e2, ?e3, ?e4, ?e5, ?e6, ?e7, ?e8 in *;
     first [ apply A1; assumption | apply A2; assumption | apply A3; assumption | apply A4; assumption
           | apply B1; assumption | apply B2; assumption | apply B3; assumption | apply B4; assumption ].
 Qed.
 
-(* ---- refuted: with overlapping outer radii rounded_box subtracts the side widths from the UNSCALED radii and
-        rescales the result on its own, instead of subtracting from the scaled outer radii (Backgrounds 3, 5.5
-        then 5.3): the inner curve then leaves the outer curve.  100 x 100 box, all radii 80, left border 40. ---- *)
+(* no radius clipped at 0 (every used outer radius at least the adjacent side width): the inner radii fit *)
+Lemma inner_fits_when_not_clipped W H R bt br bb bl :
+  0 <= W -> 0 <= H -> nonneg R ->
+  let Ro := css_outer W H R in
+  bl <= tlx Ro -> bt <= tly Ro -> br <= trx Ro -> bt <= try_ Ro ->
+  br <= brx Ro -> bb <= bry Ro -> bl <= blx Ro -> bb <= bly Ro ->
+  fits (W - bl - br) (H - bt - bb) (inner_raw Ro bt br bb bl).
+Proof.
+  intros Hw Hh N Ro c1 c2 c3 c4 c5 c6 c7 c8.
+  destruct (css_outer_fits W H R Hw Hh N) as [_ [F1 [F2 [F3 F4]]]]. fold Ro in F1, F2, F3, F4.
+  unfold fits, inner_raw. cbn [tlx tly trx try_ brx bry blx bly].
+  rewrite (qmax0_pos (tlx Ro - bl)), (qmax0_pos (tly Ro - bt)), (qmax0_pos (trx Ro - br)), (qmax0_pos (try_ Ro - bt)),
+    (qmax0_pos (brx Ro - br)), (qmax0_pos (bry Ro - bb)), (qmax0_pos (blx Ro - bl)), (qmax0_pos (bly Ro - bb)) by lra.
+  repeat split; lra.
+Qed.
+
+(* the border box itself: rounded_border_box returns the used outer radii *)
+Lemma border_box_radii W H R : 0 <= W -> 0 <= H -> nonneg R ->
+  radii_eq (rr (rounded_border_box W H R)) (css_outer W H R).
+Proof.
+  intros Hw Hh N. destruct (css_outer_fits W H R Hw Hh N) as [[n1 [n2 [n3 [n4 [n5 [n6 [n7 n8]]]]]]] F].
+  unfold rounded_border_box, rounded_box. simpl rr. fold (css_outer W H R). set (Ro := css_outer W H R) in *.
+  assert (E : radii_eq (inner_raw Ro 0 0 0 0) Ro).
+  { unfold radii_eq, inner_raw. cbn [tlx tly trx try_ brx bry blx bly]. repeat split; rewrite qmax0_pos; lra. }
+  assert (Er : ratio (W - 0 - 0) (H - 0 - 0) (inner_raw Ro 0 0 0 0) == 1).
+  { rewrite (ratio_radii_eq _ _ _ W H Ro); [|ring|ring|exact E]. apply ratio_one; [|exact F].
+    unfold nonneg. repeat split; assumption. }
+  destruct E as [e1 [e2 [e3 [e4 [e5 [e6 [e7 e8]]]]]]].
+  unfold radii_eq, scale. cbn [tlx tly trx try_ brx bry blx bly]. rewrite Er.
+  repeat split; [rewrite e1|rewrite e2|rewrite e3|rewrite e4|rewrite e5|rewrite e6|rewrite e7|rewrite e8]; ring.
+Qed.
+
+(* ---- the former witness of F162 (100 x 100, all radii 80, left border 40): the repaired code gives the CSS radii
+        (10, 50) / (50, 50) and the point (84, 8) of the old inner curve is no longer on it ---- *)
 Definition w_R : radii := mkR 80 80 80 80 80 80 80 80.
 Definition sq (a : Q) : Q := a * a.
-(* (px, py) relative to the border box; top-right corner of a rounded box o *)
+(* (px, py) relative to the border box; top-right / top-left corner of a rounded box o *)
 Definition on_tr_curve (o : rbox) (px py : Q) : bool :=
   Qeq_bool (sq (px - (dx o + rw o - trx (rr o))) * sq (try_ (rr o)) + sq (py - (dy o + try_ (rr o))) * sq (trx (rr o)))
            (sq (trx (rr o)) * sq (try_ (rr o))).
@@ -342,16 +478,35 @@ Definition outside_tr_curve (o : rbox) (px py : Q) : bool :=
   negb (Qle_bool px (dx o + rw o - trx (rr o))) && negb (Qle_bool (dy o + try_ (rr o)) py) &&
   negb (Qle_bool (sq (px - (dx o + rw o - trx (rr o))) * sq (try_ (rr o)) + sq (py - (dy o + try_ (rr o))) * sq (trx (rr o)))
                  (sq (trx (rr o)) * sq (try_ (rr o)))).
+Definition on_tl_curve (o : rbox) (px py : Q) : bool :=
+  Qeq_bool (sq (px - (dx o + tlx (rr o))) * sq (tly (rr o)) + sq (py - (dy o + tly (rr o))) * sq (tlx (rr o)))
+           (sq (tlx (rr o)) * sq (tly (rr o))).
+Definition outside_tl_curve (o : rbox) (px py : Q) : bool :=
+  negb (Qle_bool (dx o + tlx (rr o)) px) && negb (Qle_bool (dy o + tly (rr o)) py) &&
+  negb (Qle_bool (sq (px - (dx o + tlx (rr o))) * sq (tly (rr o)) + sq (py - (dy o + tly (rr o))) * sq (tlx (rr o)))
+                 (sq (tlx (rr o)) * sq (tly (rr o)))).
 
-Theorem inner_curve_leaves_outer_when_radii_overlap :
+Example former_f162_witness_follows_css :
+  radii_eqb (rr (rounded_box 100 100 w_R 0 0 0 40)) (mkR 10 50 50 50 50 50 10 50) = true /\
+  radii_eqb (rr (rounded_border_box 100 100 w_R)) (mkR 50 50 50 50 50 50 50 50) = true /\
+  on_tr_curve (rounded_box 100 100 w_R 0 0 0 40) 84 8 = false /\
+  on_tr_curve (rounded_box 100 100 w_R 0 0 0 40) 80 10 = true /\
+  outside_tr_curve (rounded_border_box 100 100 w_R) 80 10 = false.
+Proof. vm_compute. repeat split. Qed.
+
+(* the limit of inner_curve_inside_outer: when a radius is clipped at 0 on one corner and the neighbouring inner
+   radius no longer fits, the overlap check on the inner rectangle ("safety net" kept by fe0eeda) shrinks the inner
+   curve towards the inner corner, and it leaves the outer curve.  CSS Backgrounds 3 says nothing about inner radii
+   that overlap.  100 x 100, top-left radius 90, top-right radius 5, right border 30. *)
+Theorem inner_rescale_can_leave_outer_curve :
   exists W H R bt br bb bl px py,
-    on_tr_curve (rounded_box W H R bt br bb bl) px py = true /\
-    outside_tr_curve (rounded_border_box W H R) px py = true /\
-    radii_eqb (rr (rounded_box W H R bt br bb bl)) (css_inner_fit W H R bt br bb bl) = false.
-Proof. exists 100, 100, w_R, 0, 0, 0, 40, 84, 8. vm_compute. repeat split. Qed.
+    on_tl_curve (rounded_box W H R bt br bb bl) px py = true /\
+    outside_tl_curve (rounded_border_box W H R) px py = true /\
+    Qle_bool 1 (ratio W H R) = true.
+Proof. exists 100, 100, (mkR 90 90 5 5 0 0 0 0), 0, 30, 0, 0, 28, 14. vm_compute. repeat split. Qed.
 
 Example radius_hypotheses_satisfiable :
   let R := mkR 20 10 12 30 8 8 25 14 in
-  fits (100 - 12 - 4) (80 - 3 - 2) (inner_raw R 3 4 2 12) /\ nonneg R /\ fits 100 80 R /\
+  fits (100 - 12 - 4) (80 - 3 - 2) (inner_raw (css_outer 100 80 R) 3 4 2 12) /\ nonneg R /\ fits 100 80 R /\
   radii_eqb (rr (rounded_box 100 80 R 3 4 2 12)) (mkR 8 7 8 27 4 6 13 12) = true.
 Proof. vm_compute. repeat split; discriminate. Qed.
